@@ -197,13 +197,13 @@ def known_finding_witnesses(sc):
     pkg.defs.append({"kind": "protocol", "name": "P", "steps": [("a", ("named", "A", []), False)]})
     yield Job("witness:bare-type-parameter-alias", sc.path("kf-typevar"), pkg=pkg, manifest_extra=OPTION_SETS[4][1], namespace="Kf1")
     imp = modelgen.Package("Kf2Imp")
-    imp.defs.append({"kind": "alias", "name": "A", "tparams": [], "type": ("vec", ("union", False, [(None, P("int32")), (None, P("string"))]), None)})
+    imp.defs.append({"kind": "alias", "name": "A", "tparams": [], "type": ("arr", ("union", True, [("ua", P("int32")), ("ub", P("float64"))]), ("fixed", [2], None))})
     pkg = modelgen.Package("Kf2")
     pkg.imports.append(imp)
     pkg.defs.append({"kind": "protocol", "name": "P", "steps": [("a", ("named", "Kf2Imp.A", []), False)]})
     yield Job("witness:inline-union-in-imported-alias", sc.path("kf-import"), pkg=pkg, manifest_extra=OPTION_SETS[4][1], namespace="Kf2")
     pkg = modelgen.Package("Kf3")
-    pkg.defs.append({"kind": "record", "name": "G", "tparams": ["T"], "fields": [("a", ("arr", ("tparam", "T"), ("fixed", [2, 2], None)))]})
+    pkg.defs.append({"kind": "record", "name": "G", "tparams": ["T"], "fields": [("a", ("arr", ("arr", ("opt", ("tparam", "T")), ("fixed", [2], None)), ("rank", 1, None)))]})
     pkg.defs.append({"kind": "protocol", "name": "P", "steps": [("a", ("vec", ("named", "G", [P("int32")]), None), False)]})
     yield Job("witness:type-parameter-only-in-array", sc.path("kf-array"), pkg=pkg, manifest_extra=OPTION_SETS[4][1], namespace="Kf3")
 
